@@ -38,6 +38,9 @@ deriving DecidableEq, Repr
 structure KeyD (α : Type) where
   use : Option α               -- KeyDescriptor/@use
   cert : α                     -- the certificate (identified by the harness with a key name)
+  /-- the KeyDescriptor carries no usable certificate (no X509Data, or an X509Certificate element that
+      is empty / blank): `extract_certs` skips it -/
+  nocert : Bool := false
 deriving DecidableEq, Repr
 
 structure ReqAttr (α : Type) where
@@ -161,6 +164,54 @@ def parseDoc (chk : Bool) (now : Int) (p2 : α) (m : EntMap α) (d : Doc α) : E
     | e :: _ => .ok (doEntity chk now p2 m e)
     | [] => .ok m
 
+/-! ### The `filter` callable (`MetadataStore(filter=…)`, handed to the sources it constructs) -/
+
+/-- `do_entity_descriptor` with a filter: after the SAML 2.0 loop `_ent = self.filter(_ent)`; a falsy
+    result (`None`, `{}`) sets `flag = 0` — the entity is not stored and does NOT occupy its entityID
+    (a later occurrence may be stored); otherwise the filter's RESULT is stored under the entityID of
+    the element (`self.entity[entity_descr.entity_id] = _ent`), as it is: no second protocol check. -/
+def doEntityF (g : Ent α → Option (Ent α)) (chk : Bool) (now : Int) (p2 : α) (m : EntMap α) (e : Ent α) : EntMap α :=
+  if chk && expired now e.validUntil then m
+  else if has m e.id then m
+  else match prepEnt p2 e with
+    | none => m
+    | some d =>
+      match g d with
+      | none => m
+      | some d' => m ++ [(e.id, d')]
+
+/-- `InMemoryMetaData.parse` of a source that was given a filter. -/
+def parseDocF (g : Ent α → Option (Ent α)) (chk : Bool) (now : Int) (p2 : α) (m : EntMap α) (d : Doc α) :
+    Except LoadErr (EntMap α) :=
+  if d.group then
+    if chk && expired now d.validUntil then .error .tooOld
+    else .ok (d.entities.foldl (doEntityF g chk now p2) m)
+  else
+    match d.entities with
+    | e :: _ => .ok (doEntityF g chk now p2 m e)
+    | [] => .ok m
+
+/-- The filters the correspondence run hands to the store (a finite description of a callable
+    dict -> dict | None): refuse entities by entityID, refuse entities that lack an entity attribute
+    value (the shape of an entity-category filter), and REWRITE what is kept by deleting the
+    descriptors of some kinds.  The theorems on `doEntityF` / `parseDocF` hold for every function. -/
+structure Filt (α : Type) where
+  drop : List α                -- entityIDs the filter refuses
+  need : Option (α × α)        -- (attribute name, value) an entity must carry to be kept
+  strip : List Kind            -- `<kind>_descriptor` keys the filter deletes from what it keeps
+deriving DecidableEq, Repr
+
+/-- what the filter makes of an entity it keeps -/
+def stripKinds (f : Filt α) (e : Ent α) : Ent α :=
+  { e with roles := e.roles.filter (fun r => !f.strip.contains r.kind) }
+
+def applyFilt (f : Filt α) (e : Ent α) : Option (Ent α) :=
+  if f.drop.contains e.id then none
+  else
+    match f.need with
+    | none => some (stripKinds f e)
+    | some nv => if e.attrs.any (fun a => decide (a.1 = nv.1) && a.2.contains nv.2) then some (stripKinds f e) else none
+
 inductive SrcKind where
   | file | inline | loader | remote | mdq
 deriving DecidableEq, Repr
@@ -190,6 +241,9 @@ structure SrcSpec (α : Type) where
   chk : Bool                   -- check_validity (false only for an old-style remote entry)
   fresh : Nat                  -- MDQ freshness period, seconds
   fetch : Fetch α              -- ignored for MDQ (nothing is read at load time)
+  /-- the store's `filter`, if this source is constructed with it AND runs `do_entity_descriptor`
+      (`load`: local files and remote; `imp`, class style: every class; never MDQ / MetaDataMD) -/
+  filt : Option (Filt α) := none
 deriving DecidableEq, Repr
 
 structure Source (α : Type) where
@@ -205,6 +259,12 @@ deriving DecidableEq, Repr
 /-- inline sources (`InMemoryMetaData.load` = `parse` only) never look at a certificate -/
 def effCert (k : SrcKind) (cert : Bool) : Bool := cert && !decide (k = .inline)
 
+/-- `parse` as the source built from this specification runs it (from the empty entity table). -/
+def parseSrc (sp : SrcSpec α) (now : Int) (p2 : α) (d : Doc α) : Except LoadErr (EntMap α) :=
+  match sp.filt with
+  | none => parseDoc sp.chk now p2 [] d
+  | some f => parseDocF (applyFilt f) sp.chk now p2 [] d
+
 /-- Construct and `load()` one source.  `error` = the exception leaves `MetadataStore.load/imp`. -/
 def loadSource (pol : Policy) (p2 : α) (now : Int) (sp : SrcSpec α) : Except LoadErr (Source α) :=
   let mk (m : EntMap α) : Source α :=
@@ -217,7 +277,7 @@ def loadSource (pol : Policy) (p2 : α) (now : Int) (sp : SrcSpec α) : Except L
     | .unavailable => .error .unavailable
     | .malformed => .error .parse
     | .doc d =>
-      match parseDoc sp.chk now p2 [] d with
+      match parseSrc sp now p2 d with
       | .error e => .error e
       | .ok m => if checkSig pol sp.kind (effCert sp.kind sp.cert) d.sig then .ok (mk m) else .error .signature
 
@@ -291,7 +351,7 @@ def selectBinding (eps : List (Endpoint α)) (b : Option α) : List (Endpoint α
 
 /-- `extract_certs`. -/
 def extractCerts (use : α) (rs : List (Role α)) : List α :=
-  rs.flatMap (fun r => (r.keys.filter (fun k => decide (k.use = none) || decide (k.use = some use))).map (·.cert))
+  rs.flatMap (fun r => (r.keys.filter (fun k => !k.nocert && (decide (k.use = none) || decide (k.use = some use)))).map (·.cert))
 
 /-- `MetaData.certs(entity, descriptor, use)` on the descriptor found; `kind = none` is "any". -/
 def certsOf (e : Ent α) (kind : Option Kind) (use : α) : Option (List α) :=
